@@ -974,8 +974,35 @@ func (x *pexec) checkRun(blk *lz.Block, w, n int) {
 		if x.spec.Type == "GSAP" && x.gsapWindowBlind(blk, w, n) {
 			sig = "gsap_window_blind"
 		}
+		if x.spec.Type == "BUP" && x.bupUnhashableTail(blk, w, n, c) {
+			sig = "bup_unhashable_tail"
+		}
 		x.fail("C19", "run_not_compressed", sig, "%s block of %d bytes inside a run of %#x carries %d literals (bound %d)", x.spec.Type, n, c, len(blk.Literals), bound)
 	}
+}
+
+// bupUnhashableTail recognises finding F21: all literals of the run block are
+// trailing literals, fewer than InputLen (positions that cannot be hashed any
+// more), behind a match whose source lies in an earlier, shorter run of the
+// same byte (the source byte that follows the match source differs).
+func (x *pexec) bupUnhashableTail(blk *lz.Block, w, n int, c byte) bool {
+	cfg, ok := x.parser.ParserConfig().(*lz.BUPConfig)
+	if !ok || len(blk.Sequences) == 0 {
+		return false
+	}
+	pos := w
+	for _, s := range blk.Sequences {
+		if s.LitLen != 0 {
+			return false
+		}
+		pos += int(s.MatchLen)
+	}
+	if len(blk.Literals) >= cfg.InputLen || pos+len(blk.Literals) != w+n {
+		return false
+	}
+	last := blk.Sequences[len(blk.Sequences)-1]
+	src := pos - int(last.Offset) // source byte that follows the match source
+	return src >= x.off && src < len(x.S) && x.S[src] != c
 }
 
 func (x *pexec) checkOptimal(blk *lz.Block, w, n int) {
